@@ -210,6 +210,8 @@ func c12(r *rep.Run) {
 						}
 						ranges = append(ranges, rng{lo, hi})
 					}
+					var expectTop *eval.Value
+					expectWhat := ""
 					for _, ev := range h.Events {
 						switch ev.EventType {
 						case eval.LoopEvent:
@@ -223,6 +225,19 @@ func c12(r *rep.Run) {
 							}
 							last = ld.CurtIdx
 							addRange(ev.Stack)
+							// the snapshot is the operand stack of THAT moment: what the
+							// previous step produced (an operator's result, a constant) is on
+							// top of it, whatever jump was taken in between
+							if expectTop != nil {
+								if len(ev.Stack) == 0 || !ref.ValEqual(ev.Stack[len(ev.Stack)-1], *expectTop) {
+									r.Violate("loop-stack-stale", p.Src+c.o.String(), sprintf("LOOP event at position %d shows the stack %v, but the step before it (%s) left %v on top", ld.CurtIdx, ev.Stack, expectWhat, *expectTop), d(map[string]interface{}{"stack": fmt.Sprint(ev.Stack)}))
+								}
+								expectTop = nil
+							}
+							if ld.NodeType == eval.ConstantNode {
+								v := ld.NodeValue
+								expectTop, expectWhat = &v, "the constant at the previous position"
+							}
 							for _, v := range ev.Stack {
 								key := fmt.Sprintf("%T:%v", v, v)
 								if isDNE(v) {
@@ -240,6 +255,11 @@ func c12(r *rep.Run) {
 							}
 							opEvents = append(opEvents, od)
 							addRange(od.Params)
+							expectTop = nil
+							if od.Err == nil {
+								v := od.Res
+								expectTop, expectWhat = &v, "operator "+od.OpName
+							}
 						default:
 							r.Violate("event-type", p.Src, sprintf("unknown event type %q", ev.EventType), d(nil))
 						}
